@@ -1,4 +1,4 @@
-import StorageModel.C10.Basic
+import StorageModel.C10.Eval
 /-
   C10 — how boltz/query_cursor.go `rowCursorImpl.IsNil / Eval*` reach the three kinds of
   EntitySymbol.Eval (boltz/query_symbols.go), with Go nil pointers made explicit.  Only the
@@ -21,17 +21,15 @@ deriving DecidableEq, Repr
 def BoltSym.evalIsNil : BoltSym → Outcome Bool
   | .field v => .ok v.isNone
   | .setRuntime v => .ok v.isNone            -- `if symbol.value == nil { return TypeNil, nil }`
-  | .composite none => .panic "compositeEntitySetSymbol.Eval: symbol.cursor.key with symbol.cursor == nil"
-  | .composite (some key) => .ok key.isNone  -- cursorLastF(tx, symbol.cursor.key)
+  | .composite cursor =>
+    -- `if symbol.cursor == nil { return TypeNil, nil }` (fix 4e2e9ce), then symbol.cursor.key
+    if cursor.isNone then .ok true else do
+      let c ← deref "compositeEntitySetSymbol.Eval: symbol.cursor.key" cursor
+      .ok c.isNone
 
 /-- `rowCursorImpl.IsNil(name)`: an unknown symbol is logged and reported nil -/
 def rowIsNil : Option BoltSym → Outcome Bool
   | none => .ok true
   | some s => s.evalIsNil
-
-/-- a symbol on which a cursor has been opened whenever it is a dotted set symbol -/
-def BoltSym.cursorOpened : BoltSym → Bool
-  | .composite none => false
-  | _ => true
 
 end StorageModel.C10
